@@ -5,17 +5,17 @@
 #  (3) the demo fails with it, (4) the demo passes without it.
 # Prints one line RESULT ... and exits 0 iff all four hold.
 D=$(cd "$1" && pwd)
-W=/tmp/seedconfirm
-export CARGO_TARGET_DIR=/tmp/seedconfirm-target CARGO_NET_OFFLINE=true
+W=${SEEDCONFIRM_DIR:-/tmp/seedconfirm}
+export CARGO_TARGET_DIR=$W-target CARGO_NET_OFFLINE=true
 if [ ! -d $W ]; then git -C /repo worktree add -q --detach $W HEAD || exit 2; fi
 cd $W && git checkout -q --detach $(git -C /repo rev-parse HEAD) && git checkout -q -- . && git clean -fdq
-run_demo() { cp "$D/seed_demo.rs" tests/seed_demo.rs; timeout 1200 cargo test --offline --test seed_demo >/tmp/seedconfirm.demo.log 2>&1; rc=$?; rm -f tests/seed_demo.rs; return $rc; }
+run_demo() { cp "$D/seed_demo.rs" tests/seed_demo.rs; timeout 1200 cargo test --offline --test seed_demo >$W.demo.log 2>&1; rc=$?; rm -f tests/seed_demo.rs; return $rc; }
 run_demo; PRISTINE=$?
 git apply "$D/patch.diff" || { echo "RESULT apply-failed"; exit 1; }
-timeout 2400 cargo test --workspace --no-fail-fast --offline >/tmp/seedconfirm.suite.log 2>&1; SUITE=$?
-NPASS=$(grep -E "^test result" /tmp/seedconfirm.suite.log | awk '{s+=$4} END{print s}')
+timeout 2400 cargo test --workspace --no-fail-fast --offline >$W.suite.log 2>&1; SUITE=$?
+NPASS=$(grep -E "^test result" $W.suite.log | awk '{s+=$4} END{print s}')
 run_demo; WITH=$?
-DEMOFAIL=$(grep -E "^test result|panicked|error\[" /tmp/seedconfirm.demo.log | head -3 | tr '\n' ' ')
+DEMOFAIL=$(grep -E "^test result|panicked|error\[" $W.demo.log | head -3 | tr '\n' ' ')
 git checkout -q -- . && git clean -fdq
 echo "RESULT pristine_demo_rc=$PRISTINE suite_rc=$SUITE suite_passed=$NPASS demo_with_change_rc=$WITH :: $DEMOFAIL"
 [ $PRISTINE -eq 0 ] && [ $SUITE -eq 0 ] && [ $WITH -ne 0 ]
